@@ -74,3 +74,79 @@ Example C02_nanocore_bridge_nonvacuous :
   exact_eval [(1%N, (false, VInt 7)); (2%N, (false, VBool true))]
              (ECond (EVar 2%N) (EBin BDiv (EBin BMul (EVar 1%N) (ENum 6)) (ENum 4)) (ENum 0)) = Some (VInt 10).
 Proof. vm_compute. reflexivity. Qed.
+
+(* ------------------------------------------------------------------------------------------------------------
+   Compiler correctness (simulation): the reference semantics of the core language against the NanoVM executing,
+   byte by byte, the code produced by the compiler model.  Proofs: Back/VmSim*.v (notes: Back/VMSIM_STATUS.md).
+   ------------------------------------------------------------------------------------------------------------ *)
+From NV Require Import Base.Bytes Isa.Codec Isa.CodecProofs Back.VmSimFetch Back.VmSimStep Back.VmSimComp Back.VmSimWf Back.VmSimEnv
+  Back.VmSimDefs Back.VmSimExpr Back.VmSimStmt Back.VmSimLoop Back.VmSimCall Back.VmSimFor Back.VmSimAll Back.VmSimMod
+  Back.VmSimFinal Back.VmSimExamples.
+
+(* stage A: the machine's byte fetch inside a function's code region yields exactly the compiled instruction *)
+Theorem C02_vm_fetch_at : forall M fn fe cf pos i c,
+  fentry_at M fn = Some fe -> fn_code M fe cf -> code_at cf pos (i :: c) ->
+  at_instr M fn (fe_off fe + pos)%nat i.
+Proof. exact fetch_at. Qed.
+Print Assumptions C02_vm_fetch_at.
+
+(* stage A: every instruction the statement compiler emits has its operands in range (so it survives encode/decode) *)
+Theorem C02_vm_compile_wf : forall G s pos L ce p c ce' p',
+  compile_stmt G pos L ce s p = Some (c, ce', p') -> lims G (length ce') (length p') -> Forall (wf_instr table) c.
+Proof. exact compile_stmt_wf. Qed.
+Print Assumptions C02_vm_compile_wf.
+
+(* stage B: expressions without calls *)
+Theorem C02_vm_sim_expr_no_call : forall fns G M, (length (g_globals G) <= VM_MAX_GLOBALS_N)%nat ->
+  forall fuel e, no_call e -> expr_sim fns G M fuel e.
+Proof. exact sim_expr_no_call. Qed.
+Print Assumptions C02_vm_sim_expr_no_call.
+
+(* stages C and D: statements without calls and without for (incl. while / break / continue / return / assert) *)
+Theorem C02_vm_sim_stmt_plain : forall fns G M, (length (g_globals G) <= VM_MAX_GLOBALS_N)%nat ->
+  forall fuel s, plain s -> stmt_sim fns G M fuel s.
+Proof. exact sim_stmt_plain. Qed.
+Print Assumptions C02_vm_sim_stmt_plain.
+
+(* stages B-F together: every expression, statement and for-loop of the core language, calls and recursion included *)
+Theorem C02_vm_sim_all : forall fns G M, (length (g_globals G) <= VM_MAX_GLOBALS_N)%nat -> fns_compiled fns G M ->
+  forall fuel,
+  (forall e, expr_sim fns G M fuel e) /\ (forall s, stmt_sim fns G M fuel s) /\ (forall x body, for_sim fns G M fuel x body).
+Proof. exact sim_all. Qed.
+Print Assumptions C02_vm_sim_all.
+
+(* stage G: whole programs.  The only alternative outcome is the machine's documented frame-stack limit. *)
+Theorem C02_vm_correct : forall pr M fuel out ex,
+  compile_program pr = Some M -> small_program pr -> fuel_small fuel ->
+  run_ref fuel pr = Done out ex ->
+  (exists fuel', run_vm fuel' M = VDone out ex) \/ (exists fuel' o, run_vm fuel' M = VError ECallDepth o).
+Proof. exact vm_correct. Qed.
+Print Assumptions C02_vm_correct.
+
+Theorem C02_vm_correct_assert : forall pr M fuel out,
+  compile_program pr = Some M -> small_program pr -> fuel_small fuel ->
+  run_ref fuel pr = Faulted FAssert out ->
+  (exists fuel', run_vm fuel' M = VError EAssert out) \/ (exists fuel' o, run_vm fuel' M = VError ECallDepth o).
+Proof. exact vm_correct_assert. Qed.
+Print Assumptions C02_vm_correct_assert.
+
+Theorem C02_vm_correct_depth_ok : forall pr M fuel out ex,
+  compile_program pr = Some M -> small_program pr -> fuel_small fuel -> depth_ok M ->
+  run_ref fuel pr = Done out ex -> exists fuel', run_vm fuel' M = VDone out ex.
+Proof. exact vm_correct_depth_ok. Qed.
+Print Assumptions C02_vm_correct_depth_ok.
+
+(* the hypotheses are satisfiable: a program with a global, recursion, for/while/break/continue, strings, and/or, cond *)
+Example C02_vm_correct_example : exists M, compile_program ex_prog = Some M /\
+  run_ref 200%nat ex_prog = Done [104; 105; 10; 53; 53; 10]%N 10 /\
+  ((exists fuel', run_vm fuel' M = VDone [104; 105; 10; 53; 53; 10]%N 10) \/
+   (exists fuel' o, run_vm fuel' M = VError ECallDepth o)) /\
+  run_vm 5000%nat M = VDone [104; 105; 10; 53; 53; 10]%N 10.
+Proof. exact ex_prog_correct. Qed.
+Print Assumptions C02_vm_correct_example.
+
+(* ... and the hypothesis about the implicit-return check is necessary: `fn f() { if c { return } }` falls off its code *)
+Example C02_vm_epilogue_hypothesis_needed : exists M, compile_program ex_fall = Some M /\
+  run_ref 50%nat ex_fall = Done [55; 10]%N 0 /\ run_vm 500%nat M = VFellOff [].
+Proof. exact epilogue_hypothesis_needed. Qed.
+Print Assumptions C02_vm_epilogue_hypothesis_needed.
